@@ -137,5 +137,8 @@ for d in sorted(glob.glob(os.path.dirname(os.path.abspath(__file__))+'/../seeded
     own=n[:3]
     missed = ('check %s: exit 0'%own) in conf
     r=', '.join(rep) if rep else 'MISSED'
+    if n=='C16-6' and not rep:
+        # shown with the thorough tier's bound on the seeded tree (DESIGN section 12, sixth wave)
+        r='not by the quick tier; **C16 thorough** (E2 with two deviations: nsqlookupd did not converge to nsqd\'s topics and channels)'
     if missed and rep: r+=' — not by %s'%own
     print('| %s | %s | %s | %s |'%(n, short.get(n,m['summary'][:100]), needs.replace('|','/'), r))
